@@ -113,7 +113,7 @@ func (g *gen) httpCase(steps int) {
 
 func family(g *gen, a *hx.Args) {
 	g.httpScripted()
-	for i := 0; i < a.N(70); i++ {
+	for i := 0; i < a.N(120); i++ {
 		g.httpCase(6 + g.r.Intn(10))
 	}
 }
